@@ -33,6 +33,13 @@ Definition has_name (n : fname) (l : list frame) : bool := existsb (fun f => fna
 Definition healthy (sn : snap) : bool :=
   st_eqb (sn_state sn) OPEN && st_eqb (sn_conn sn) OPEN &&
   match sn_errs sn, sn_cerrs sn with [], [] => true | _, _ => false end.
+(* what the call ended with, whatever it handed out before *)
+Definition res_of (ob : opobs) : result :=
+  match ob_res ob with
+  | RMsgsErr _ (Some e) => if err_eqb e hang_err then RHang else RErr e
+  | RMsgsErr _ None => ROther
+  | r => r
+  end.
 Definition is_err (r : result) : bool := match r with RErr _ => true | _ => false end.
 Definition disturbing (c : nat) (l : list (nat * frame)) : bool :=
   has_name NReturn (on_chan c l) || has_name NChClose (on_chan c l) ||
@@ -71,14 +78,14 @@ Definition c05_ok (i : scenario) (obs : list opobs) : bool :=
       let mine := existsb (fun f => fname_eqb (f_name f) NDeclareOk && (f_num f =? me))
                           (on_chan c (ob_delivered ob)) in
       (me,
-       match ob_res ob with
+       match res_of ob with
        | RNum z => z =? me                         (* own reply, never another one *)
        | RErr _ =>                                 (* only with a reason *)
          negb (healthy before) ||
          disturbing c (flat_map ob_delivered (firstn (S k) obs)) || negb mine
        | _ => false
        end)
-    | AGet => (serial, match ob_res ob with ROther => false | _ => true end)
+    | AGet => (serial, match res_of ob with ROther => false | _ => true end)
     | _ => (serial, true)
     end) 0 0%nat steps obs.
 
@@ -103,9 +110,9 @@ Definition c15_ok (i : scenario) (obs : list opobs) : bool :=
        (Nat.eqb (sn_req (ob_snap ob)) (sn_req before)) && (Nat.eqb (sn_resp (ob_snap ob)) (sn_resp before)) &&
        match sn_tags before with
        | _ :: _ =>   (* refuses to run with active consumers, before writing *)
-         is_err (ob_res ob) && match ob_written ob with [] => true | _ => false end
+         is_err (res_of ob) && match ob_written ob with [] => true | _ => false end
        | [] =>
-         match ob_res ob with
+         match res_of ob with
          | RNone => match fr with f :: _ => fname_eqb (f_name f) NGetEmpty | [] => false end
          | RMsg d body =>
            match fr with
@@ -136,7 +143,7 @@ Definition c13_ok (i : scenario) (obs : list opobs) : bool :=
        let before := prev_snap c steps obs empty_snap k in
        let fr := on_chan c (ob_delivered ob) in
        if sn_confirm before then
-         match ob_res ob with
+         match res_of ob with
          | RBool b =>
            (* an outcome is reported only for this very message, and correctly *)
            sent &&
@@ -191,7 +198,7 @@ Definition c03_chan_ok (c : nat) (steps : list step) (obs : list opobs) : bool :
     let scripted := fst acc ++ on_chan c (ob_delivered ob) in
     let handed := if Nat.eqb (st_chan st) c then
                     match st_op st, ob_res ob with
-                    | (AProcess | ABuild), RMsgs l => snd acc ++ l
+                    | (AProcess | ABuild), (RMsgs l | RMsgsErr l _) => snd acc ++ l
                     | _, _ => snd acc
                     end
                   else snd acc in
@@ -208,8 +215,19 @@ Definition c03_chan_ok (c : nat) (steps : list step) (obs : list opobs) : bool :
         end
       else true))) ([], []) 0%nat steps obs.
 
+(* the broker assumption of C03: it delivers only to consumers it has granted
+   (a Basic.ConsumeOk went out for that tag on that channel before) *)
+Definition deliveries_conform (c : nat) (obs : list opobs) : bool :=
+  snd (fold_left (fun (acc : list bytes * bool) ob =>
+         fold_left (fun (a : list bytes * bool) f =>
+                      match f_name f with
+                      | NConsumeOk => (f_str f :: fst a, snd a)
+                      | NDeliver => (fst a, snd a && mem_tag (f_str f) (fst a))
+                      | _ => a
+                      end) (on_chan c (ob_delivered ob)) acc) obs ([], true)).
+
 Definition c03_ok (i : scenario) (obs : list opobs) : bool :=
-  forallb (fun c => c03_chan_ok c (snd i) obs) (seq 1 (fst i)).
+  forallb (fun c => negb (deliveries_conform c obs) || c03_chan_ok c (snd i) obs) (seq 1 (fst i)).
 
 (* ---------- C14: consumer bookkeeping matches the broker's ---------- *)
 Definition same_set (a b : list bytes) : bool :=
@@ -228,17 +246,17 @@ Definition c14_chan_ok (c : nat) (steps : list step) (obs : list opobs) : bool :
     (t2,
      if Nat.eqb (st_chan st) c then
        (* at quiescence the client's list is the broker's table *)
-       (if healthy (ob_snap ob) && negb (is_err (ob_res ob))
+       (if healthy (ob_snap ob) && negb (is_err (res_of ob))
         then same_set (sn_tags (ob_snap ob)) t2 else true) &&
        match st_op st with
        | AConsume _ =>
-         match ob_res ob with
+         match res_of ob with
          | RTag t => existsb (fun f => fname_eqb (f_name f) NConsumeOk && bytes_eqb (f_str f) t) fr
          | _ => true
          end
        | AStop =>
          (* returned normally: a Basic.Cancel went out for every active consumer *)
-         match ob_res ob with
+         match res_of ob with
          | RNone =>
            forallb (fun t => existsb (fun w => oname_eqb (o_name w) WCancel && bytes_eqb (o_str w) t)
                                      (ob_written ob))
@@ -262,18 +280,18 @@ Definition c07_ok (i : scenario) (obs : list opobs) : bool :=
     let c := st_chan st in
     let before := prev_snap c steps obs empty_snap k in
     let n := cnt_get raised c in
-    let raised' := if app_op (st_op st) && is_err (ob_res ob) && st_eqb (sn_state before) CLOSED
+    let raised' := if app_op (st_op st) && is_err (res_of ob) && st_eqb (sn_state before) CLOSED
                    then cnt_set raised c (S n) else raised in
     (raised',
      if app_op (st_op st) then
        if negb (st_eqb (sn_conn before) OPEN) && match sn_cerrs before with [] => true | _ => false end
-       then match ob_res ob with
+       then match res_of ob with
             | RErr e' => ekind_eqb (e_kind e') EConn
             | _ => match st_op st with AClose | AStop => true | _ => false end end
        else
        match sn_cerrs before, sn_errs before with
        | e :: _, _ =>      (* a connection error is pending: every channel reports it *)
-         match ob_res ob with RErr e' => ekind_eqb (e_kind e') EConn && option_eqb Z.eqb (e_code e') (e_code e)
+         match res_of ob with RErr e' => ekind_eqb (e_kind e') EConn && option_eqb Z.eqb (e_code e') (e_code e)
                          | _ => match st_op st with AClose | AStop => true | _ => false end end
        | [], e :: rest =>
          (* pending channel errors are raised oldest first, each in its turn: on a
@@ -283,13 +301,19 @@ Definition c07_ok (i : scenario) (obs : list opobs) : bool :=
          match st_op st with
          | AClose => true        (* close() waits on the connection, not on the channel's queue *)
          | _ =>
-           match ob_res ob with
-           | RErr e' => err_eqb e' expected
+           match res_of ob with
+           | RErr e' =>
+             (* a channel the application itself closed is outside C07: any of
+                the pending errors may be the one reported *)
+             if st_eqb (sn_state before) CLOSED &&
+                negb (has_name NChClose (on_chan c (flat_map ob_delivered (firstn (S k) obs))))
+             then existsb (err_eqb e') (e :: rest)
+             else err_eqb e' expected
            | _ => match st_op st with AStop | AGet => true | _ => false end
            end
          end
        | [], [] =>
-         match ob_res ob with
+         match res_of ob with
          | RErr e' =>
            disturbing c (flat_map ob_delivered (firstn (S k) obs)) || negb (healthy before) ||
            match e_code e' with None => true | Some _ => false end
@@ -307,8 +331,8 @@ Definition c07_isolation_ok (i : scenario) (obs : list opobs) : bool :=
     else
       scan_steps (fun (_ : unit) k st ob =>
         (tt, if Nat.eqb (st_chan st) c then
-               negb (is_err (ob_res ob)) || negb (healthy (prev_snap c steps obs empty_snap k)) ||
-               match ob_res ob with RErr e => match e_code e with None => true | _ => false end | _ => true end
+               negb (is_err (res_of ob)) || negb (healthy (prev_snap c steps obs empty_snap k)) ||
+               match res_of ob with RErr e => match e_code e with None => true | _ => false end | _ => true end
              else true)) tt 0%nat steps obs) (seq 1 (fst i)).
 
 (* ---------- C11: close handshakes exactly once ---------- *)
@@ -336,7 +360,7 @@ Definition c11_ok (i : scenario) (obs : list opobs) : bool :=
      (* operations on a closed channel fail without sending anything *)
      (if app_op (st_op st) && st_eqb (sn_state before) CLOSED
       then match ob_written ob with [] => true | _ => false end &&
-           match st_op st with AClose | AStop => true | _ => is_err (ob_res ob) end
+           match st_op st with AClose | AStop => true | _ => is_err (res_of ob) end
       else true) &&
      (* application close *)
      match st_op st with
@@ -351,7 +375,7 @@ Definition c11_ok (i : scenario) (obs : list opobs) : bool :=
 
 Definition nontrivial_run (i : scenario) (obs : list opobs) : bool :=
   (3 <=? length (snd i))%nat &&
-  existsb (fun ob => is_err (ob_res ob) || negb (match ob_written ob with [] => true | _ => false end)) obs.
+  existsb (fun ob => is_err (res_of ob) || negb (match ob_written ob with [] => true | _ => false end)) obs.
 
 (* ---------- C06: transport failure reaches every caller promptly, as AMQPConnectionError ---------- *)
 Definition is_fault (cf : nat * frame) : bool :=
@@ -373,7 +397,7 @@ Definition c06_ok (i : scenario) (obs : list opobs) : bool :=
      negb (ob_late ob) &&
      (* whatever is raised once the transport has failed is an AMQPConnectionError *)
      (if faulted || now_fault
-      then match ob_res ob with
+      then match res_of ob with
            | RErr e => ekind_eqb (e_kind e) EConn
            | RHang | ROther => false
            | _ => true end
@@ -382,10 +406,10 @@ Definition c06_ok (i : scenario) (obs : list opobs) : bool :=
      (if faulted && app_op (st_op st)
       then match st_op st with
            | AClose | AStop => true
-           | _ => conn_err (ob_res ob)
+           | _ => conn_err (res_of ob)
            end
       else true) &&
      (* and from the first report on the connection and the channel are closed *)
-     (if conn_err (ob_res ob)
+     (if conn_err (res_of ob)
       then st_eqb (sn_conn (ob_snap ob)) CLOSED && st_eqb (sn_state (ob_snap ob)) CLOSED
       else true))) tt 0%nat steps obs.
